@@ -205,27 +205,41 @@ Theorem c12_convert_lexer_error_off_boundary : forall s bs be sid,
 Proof. exact convert_lexer_error_off_boundary. Qed.
 Print Assumptions c12_convert_lexer_error_off_boundary.
 
-(* Full statement (FALSE, finding F9): forall tree sp, composed_one tree sp <> Panic.
-   `composed` asserts that the location exists; a span past the character length of its source fails it.
-   (Model/Span.v also restates the assert of ariadne's Label::new inside compose_display: a reversed span panics
-   too -- no entry point of this check produces one from source text; C13 owns that model.) *)
-Theorem c12_composed_total_refuted : exists s sp, composed_one [(sp_src sp, s)] (Some sp) = Panic.
-Proof. exists [233; 43]%N, (Span 2 3 1). vm_compute. reflexivity. Qed.
-Print Assumptions c12_composed_total_refuted.
+(* Finding F9 is fixed by commit d3106b1 ("error spans are converted from byte to character offsets once, when the error
+   is composed against its source"): Model/Span.v (owned by C13) mirrors the repaired `composed`.  Every span the lexer,
+   the parser and the resolver attach to an error is a pair of BYTE offsets of character boundaries of the source, in
+   order; for all of those `composed` cannot panic -- FULL strength over the spans that exist (the former
+   c12_composed_total_refuted witness, the byte span 2..3 of "e-acute +", is now located): *)
+Theorem c12_composed_total_on_source_spans : forall s sid bs be,
+  boundary s bs -> boundary s be -> bs <= be ->
+  composed_one [(sid, s)] (Some (Span bs be sid)) <> Panic.
+Proof.
+  intros s sid bs be (cs & Hcs & Es) (ce & Hce & Ee) Hle.
+  assert (cs <= ce).
+  { destruct (Nat.le_gt_cases cs ce) as [|Hgt]; [assumption|].
+    pose proof (byte_of_char_strict s ce cs Hgt Hcs). rewrite Es, Ee in *.
+    exfalso. apply (Nat.lt_irrefl bs). eapply Nat.le_lt_trans; eassumption. }
+  rewrite (composed_one_bytes [(sid, s)] s sid bs be cs ce); try assumption; [discriminate|].
+  cbn [find fst]. rewrite Nat.eqb_refl. reflexivity.
+Qed.
+Print Assumptions c12_composed_total_on_source_spans.
 
+(* ... and for any span, of whatever unit, that is ordered and inside the character length *)
 Theorem c12_composed_total_partial : forall s sp,
   sp_start sp <= sp_end sp -> sp_start sp <= length s -> sp_end sp <= length s ->
   composed_one [(sp_src sp, s)] (Some sp) <> Panic.
-Proof.
-  intros s sp H0 H1 H2 E. apply composed_one_panics_iff in E. destruct E as [E|[E|E]].
-  - apply Nat.lt_nge in E. contradiction.
-  - apply Nat.lt_nge in E. contradiction.
-  - apply Nat.lt_nge in E. contradiction.
-Qed.
+Proof. exact composed_one_total_in_bounds. Qed.
 Print Assumptions c12_composed_total_partial.
 
+(* The statement over ALL spans stays false of the function (its assert!, and the assert of ariadne's Label::new on a
+   reversed span, are still there): a span that points past the text panics.  No entry point of this check makes one:
+   spans of PL / RQ documents from JSON are never composed against a source. *)
+Theorem c12_composed_total_refuted : exists s sp, composed_one [(sp_src sp, s)] (Some sp) = Panic.
+Proof. exists [233; 43]%N, (Span 9 9 1). vm_compute. reflexivity. Qed.
+Print Assumptions c12_composed_total_refuted.
+
 (* ------------------------------------------------------------------ sites added since the last baseline *)
-(* Model/SitesBaseline.v was re-recorded on /repo 1b54dc3; every row that grew was read, and the added site is
+(* Model/SitesBaseline.v was re-recorded on /repo d060422; every row that grew was read, and the added site is
    restated with its guard in Model/ReviewedSites.v (text pinned by c12_modelled_text_unchanged). *)
 Theorem c12_reviewed_names_relative : forall (A : Type) (found : ident A -> bool) module_path i,
   resolve_relative found module_path i <> Panic.
@@ -236,6 +250,15 @@ Theorem c12_reviewed_names_core_relative : forall (A : Type) (ok : ident A -> bo
   resolve_core_relative ok module_path i <> Panic.
 Proof. exact @resolve_core_relative_total_lemma. Qed.
 Print Assumptions c12_reviewed_names_core_relative.
+
+(* d8fda67 non_finite_literals: `source[..t.span.start].chars().count()` (and .end) on the byte offsets of a token --
+   character boundaries, because the lexer consumes whole characters; Model/Span.v char_of_byte is that expression *)
+Theorem c12_reviewed_token_prefix_chars : forall s b, boundary s b -> exists k, char_of_byte s b = Ret k /\ k <= length s.
+Proof.
+  intros s b H. apply char_of_byte_boundary in H as (k & E). exists k. split; [exact E|].
+  apply char_of_byte_ret in E. tauto.
+Qed.
+Print Assumptions c12_reviewed_token_prefix_chars.
 
 Theorem c12_reviewed_only_equals : forall (A : Type) (args : list A), two_args args <> Panic.
 Proof. exact @two_args_total_lemma. Qed.
@@ -264,30 +287,22 @@ Proof. vm_compute. reflexivity. Qed.
 Print Assumptions c12_unpack_table_ok.
 
 (* ... so the std functions themselves satisfy the hypothesis of the next theorem (link between table and model) *)
-Theorem c12_std_fns_lambda_free :
-  forallb (fun d => lambda_free (arity_of GenUnpack.arms) (std_fn d)) GenUnpack.decls = true.
+Theorem c12_std_fns_well_declared :
+  forallb (fun d => well_declared (arity_of GenUnpack.arms) (std_fn d)) GenUnpack.decls = true.
 Proof. vm_compute. reflexivity. Qed.
-Print Assumptions c12_std_fns_lambda_free.
+Print Assumptions c12_std_fns_well_declared.
 
-(* Full statement (FALSE, finding C12-N14): forall fuel e id g, fold arity fuel e <> BadCast id g.
-   Model/Closure.v mirrors fold_function / apply_args_to_closure / materialize_function: when the body of a lambda folds
-   to a partially applied function, materialize_function wraps it and cuts the inner closure's parameter list down to
-   the arguments it already has; the remaining arguments are bound by name only, so a built-in (`internal`) body is
-   evaluated with too few: `from t | -> take 5` reaches unpack::<2> with one argument. *)
-Theorem c12_unpack_exact_refuted : exists e id g,
-  fold (arity_of GenUnpack.arms) 10 e = BadCast id g /\ arity_of GenUnpack.arms id <> Some g.
-Proof.
-  exists (App (Fn 0 0 [] (Body (App (Fn 0 2 [] (Internal [116;97;107;101]%N)) [Val]))) [Val]), [116;97;107;101]%N, 1.
-  split; [vm_compute; reflexivity | vm_compute; discriminate].
-Qed.
-Print Assumptions c12_unpack_exact_refuted.
-
-(* Without PRQL-bodied functions (every function a std function with the parameter counts of its declaration, applied
-   in any number of steps, to any arguments, partially, in excess, nested as arguments): never a wrong count. *)
-Theorem c12_unpack_exact_partial : forall (arity : str -> option nat) fuel e,
-  lambda_free arity e = true -> forall id g, fold arity fuel e <> BadCast id g.
-Proof. exact lambda_free_no_bad_cast. Qed.
-Print Assumptions c12_unpack_exact_partial.
+(* FULL strength since commit 9639161 ("a built-in function body keeps its parameters when a closure is materialized with
+   fewer arguments"; finding C12-N14).  Model/Closure.v mirrors fold_function / apply_args_to_closure /
+   materialize_function.  Before the commit materialize_function cut the parameter list of EVERY closure a lambda body
+   folded to, so `from t | -> take 5` reached unpack::<2> with one argument (the old c12_unpack_exact_refuted; the
+   theorem held only for terms without lambdas, c12_unpack_exact_partial).  Now: for every term -- lambdas, partial
+   applications, excess arguments, functions as arguments -- whose built-in functions have the parameter counts of their
+   declarations, no evaluation reaches unpack::<N> with a number of arguments other than N. *)
+Theorem c12_unpack_exact : forall (arity : str -> option nat) fuel e,
+  well_declared arity e = true -> forall id g, fold arity fuel e <> BadCast id g.
+Proof. exact well_declared_no_bad_cast. Qed.
+Print Assumptions c12_unpack_exact.
 
 (* ------------------------------------------------------------------ parse time on nested named arguments *)
 (* Full statement (FALSE, finding C12-H3): the number of nested_expr invocations is linear in the input length.
@@ -367,12 +382,16 @@ Example c12_ex_indent_32768 : reset_line (WOpt 50 50 32768) = Ret None /\
   reset_line (WOpt u16_max 0 32768) = Ret (Some (WOpt u16_max 0 32768)) /\ mul16 2 32768 = Panic.
 Proof. repeat split; vm_compute; reflexivity. Qed.
 Local Close Scope Z_scope.
-(* `from t | take 5` (direct), `let top = take 5` / `from t | top` (curried), and the lambda around it *)
+(* `from t | take 5` (curried application), and the former witness of C12-N14, `from t | -> take 5`: a value now *)
 Example c12_ex_unpack_direct :
   fold (arity_of GenUnpack.arms) 10 (App (App (Fn 0 2 [] (Internal [116;97;107;101]%N)) [Val]) [Val]) = Ok Val /\
-  lambda_free (arity_of GenUnpack.arms) (App (App (Fn 0 2 [] (Internal [116;97;107;101]%N)) [Val]) [Val]) = true /\
-  lambda_free (arity_of GenUnpack.arms) (App (Fn 0 0 [] (Body (App (Fn 0 2 [] (Internal [116;97;107;101]%N)) [Val]))) [Val]) = false.
+  fold (arity_of GenUnpack.arms) 10 (App (Fn 0 0 [] (Body (App (Fn 0 2 [] (Internal [116;97;107;101]%N)) [Val]))) [Val]) = Ok Val /\
+  well_declared (arity_of GenUnpack.arms) (App (Fn 0 0 [] (Body (App (Fn 0 2 [] (Internal [116;97;107;101]%N)) [Val]))) [Val]) = true.
 Proof. repeat split; vm_compute; reflexivity. Qed.
+(* a function value with the wrong parameter count for its arm (not a std declaration) does reach unpack wrongly: the
+   hypothesis of c12_unpack_exact is not vacuous *)
+Example c12_ex_unpack_hypothesis : fold (arity_of GenUnpack.arms) 10 (App (Fn 0 1 [] (Internal [116;97;107;101]%N)) [Val]) = BadCast [116;97;107;101]%N 1.
+Proof. vm_compute. reflexivity. Qed.
 (* `f x:(f x:(1))`: 7 invocations of nested_expr for 11 tokens; the parser does accept the input *)
 Example c12_ex_parse_retry : p 40 NNested (nested_named 2) = (Some [], 7) /\ length (nested_named 2) = 11.
 Proof. split; vm_compute; reflexivity. Qed.
